@@ -208,6 +208,35 @@ class CalleeGen:
                 out.append(f"{ind}{self.lhs(live)} = {self.expr(live)}")
         return out
 
+    def add_returns(self, body):
+        """RETURN statements: a trailing one (accepted: apply drops it), a top-level one in mid-body, one nested in
+        an IF / a loop, with or without a trailing RETURN, several (all refused by validate)"""
+        r = self.rng
+        mode = self.o.get("ret")
+        if not mode:
+            return body
+        tops = [k for k, ln in enumerate(body) if k >= 1 and ln.startswith("    ") and not ln.startswith("     ")]
+        at = r.choice(tops) if tops else len(body)
+
+        def nested():
+            cond = "1 > 0" if r.random() < 0.5 else f"{self.atom([])} {r.choice(['>=', '<', '=='])} {r.randint(0, 3)}"
+            blk = [f"    if ({cond}) then", "      return", "    endif"]
+            if self.lloop and r.random() < 0.35:
+                v = self.lloop[0]
+                blk = [f"    do {v} = 0, 1"] + ["  " + ln for ln in blk] + ["    enddo"]
+            return blk
+        if mode == "trailing":
+            return body + ["    return"]
+        if mode == "mid":
+            return body[:at] + ["    return"] + body[at:]
+        if mode == "nested":
+            return body[:at] + nested() + body[at:]
+        if mode == "nested_trailing":
+            return body[:at] + nested() + body[at:] + ["    return"]
+        if mode == "multi":
+            return body[:at] + nested() + body[at:] + nested() + (["    return"] if r.random() < 0.5 else [])
+        return body
+
     def build(self):
         r = self.rng
         self.pick_formals()
@@ -257,6 +286,7 @@ class CalleeGen:
         if self.o.get("container"):
             body.append(f"    {self.lhs([])} = g + 1")
         body += self.stmts(r.randint(1, 4), [], "    ")
+        body = self.add_returns(body)
         names = ", ".join(f["name"] for f in self.formals)
         args = ", ".join(f["actual"] for f in self.formals)
         if self.o.get("nargs"):
@@ -278,8 +308,11 @@ def gen_case(rng):
     r = rng
     x = r.random()
     opts = {}
-    if x < 0.52:
+    if x < 0.44:
         kind = "plain"
+    elif x < 0.52:
+        mode = r.choice(["trailing", "trailing", "mid", "nested", "nested_trailing", "nested_trailing", "multi"])
+        kind, opts = "ret_" + mode, {"ret": mode}
     elif x < 0.64:
         kind, opts = "bump", {"bump": True}
     elif x < 0.72:
@@ -352,3 +385,23 @@ def queries(names, modvar):
     if modvar:
         q.append((names.id("g"),))
     return q
+
+
+def fixed_case(call_lines, sub_lines, modvar=False):
+    """hand-written witness in the generator's frame (fixed initial values)"""
+    init = ["    i = 2", "    j = 3", "    n = 1", "    t = 2", "    k = 7",
+            "    do ii = 0, 10", "      a(ii) = mod(ii * 3 + 1, 7) - 2", "    enddo",
+            "    do ii = 2, 12", "      b(ii) = mod(ii * 5 + 1, 4) + 2", "    enddo",
+            "    do ii = 1, 10", "      c(ii) = mod(ii * 2 + 3, 5) - 1", "    enddo",
+            "    do jj = 2, 7", "      do ii = 0, 5", "        mm(ii, jj) = mod(ii * 2 + jj * 3, 7)", "      enddo", "    enddo"]
+    if modvar:
+        init.append("    g = 4")
+    prints = ["    print *, i, j, n, t, k", "    print *, a", "    print *, b", "    print *, c", "    print *, mm"]
+    if modvar:
+        prints.append("    print *, g")
+    lines = ["module m", "  implicit none"] + (["  integer :: g"] if modvar else [])
+    lines += ["contains", "  subroutine main()", "    integer :: i, j, n, t, k, ii, jj, kk",
+              "    integer, dimension(0:10) :: a", "    integer, dimension(2:12) :: b", "    integer, dimension(10) :: c",
+              "    integer, dimension(0:5,2:7) :: mm"]
+    lines += init + list(call_lines) + prints + ["  end subroutine main"] + list(sub_lines) + ["end module m"]
+    return "\n".join(lines) + "\n"
